@@ -8,6 +8,7 @@ QUOTED = ["it's", 'say "hi"', "a'b'c", "'", '"', 'x y', "é'"]
 
 def run(ctx):
     ctx.proofs('Props/C05.v')
+    ctx.table_proofs('C05Tables.v')
     build.extract_and_driver()
     h = build.harness()
     quick = ctx.tier == 'quick'
